@@ -39,8 +39,12 @@ func sortKeyedLists(p *types.Project) {
 		})
 		sort.SliceStable(s.Volumes, func(i, j int) bool { return s.Volumes[i].Target < s.Volumes[j].Target })
 		sort.SliceStable(s.Devices, func(i, j int) bool { return s.Devices[i].Target < s.Devices[j].Target })
-		sort.SliceStable(s.Secrets, func(i, j int) bool { return s.Secrets[i].Source+s.Secrets[i].Target < s.Secrets[j].Source+s.Secrets[j].Target })
-		sort.SliceStable(s.Configs, func(i, j int) bool { return s.Configs[i].Source+s.Configs[i].Target < s.Configs[j].Source+s.Configs[j].Target })
+		sort.SliceStable(s.Secrets, func(i, j int) bool {
+			return s.Secrets[i].Source+s.Secrets[i].Target < s.Secrets[j].Source+s.Secrets[j].Target
+		})
+		sort.SliceStable(s.Configs, func(i, j int) bool {
+			return s.Configs[i].Source+s.Configs[i].Target < s.Configs[j].Source+s.Configs[j].Target
+		})
 		for _, l := range []*[]string{&s.CapAdd, &s.CapDrop, (*[]string)(&s.DNS), (*[]string)(&s.DNSSearch), &s.DNSOpts, (*[]string)(&s.Tmpfs), (*[]string)(&s.Expose), &s.Links, &s.Profiles} {
 			sort.Strings(*l)
 		}
